@@ -2554,6 +2554,7 @@ int errBoundMode, double absErr_Bound, double relBoundRatio, double pwRelBoundRa
 	bool positive = true;
 	double nearZero = 0.0;
 	double min = 0;
+	int accelerate_configured = confparams_cpr->accelerate_pw_rel_compression; //restored on return: the setting belongs to the configuration, not to this call
 	if(pwRelBoundRatio < 0.000009999)
 		confparams_cpr->accelerate_pw_rel_compression = 0;
 
@@ -2722,6 +2723,7 @@ int errBoundMode, double absErr_Bound, double relBoundRatio, double pwRelBoundRa
 			status = SZ_DERR;
 			*newByteData = NULL; //no stream is produced: nothing must be wrapped or returned
 			*outSize = 0;
+			confparams_cpr->accelerate_pw_rel_compression = accelerate_configured;
 			return status;
 		}
 
@@ -2746,6 +2748,7 @@ int errBoundMode, double absErr_Bound, double relBoundRatio, double pwRelBoundRa
 		}
 	}
 
+	confparams_cpr->accelerate_pw_rel_compression = accelerate_configured;
 	return status;
 }
 
